@@ -119,7 +119,7 @@ Definition cls (e : check_err) : rej :=
   | CKHeaderParam => RHeaderParam
   | CKUnusedParams _ => RUnusedParam
   | CKBadCallParam => RBadCallParam
-  | CKLoopFunc _ _ => RLoopFunc
+  | CKLoopFunc _ _ | CKLoopFuncArity _ _ | CKLoopFuncArg _ => RLoopFunc
   | CKOutOfFuel => RShape
   end.
 Definition verdict_of_failure (o : option (bstr * check_err)) : verdict :=
